@@ -197,7 +197,9 @@ def raw_scenario(W, entry, msg, sender, funds=(), querier=None, steps=None):
     Tm = tojson.Templ(W.I, W.crate)       # messages: addresses stay human strings
     Tm.exprs = T.exprs
     Tm.n = 1000
-    info = {'sender': Tm.string(sender), 'funds': [{'denom': Tm.string(c.fields[0]), 'amount': Tm.value(c.fields[1])} for c in funds]}
+    info = None
+    if steps is None:
+        info = {'sender': Tm.string(sender), 'funds': [{'denom': Tm.string(c.fields[0]), 'amount': Tm.value(c.fields[1])} for c in funds]}
     scn = {'kind': 'raw', 'contract': W.contract, 'storage': {'$raw_storage': RT.to_json()},
            'env': {'time': Tm.value(W.now), 'height': Tm.value(W.height), 'contract': Tm.string(W.self_addr)},
            'querier': querier(Tm) if querier else {}}
